@@ -179,7 +179,7 @@ func runIndependence(p *Program, r *RuleResult) {
 		}
 	}
 	d := findTypecheckDriver(p)
-	dview := p.View(d.Driver)
+	dview := p.View(d.PhaseFn)
 
 	// all invokes of typecheckForm in package process
 	type site struct {
@@ -506,6 +506,11 @@ func runCheckAll(p *Program, r *RuleResult) {
 				continue
 			}
 			if sc := call.Common().StaticCallee(); sc != nil && sc.Parent() != nil {
+				continue
+			}
+			// the function calling itself while walking a graph (depth-first search with a
+			// visited set) visits conditionally by design; validation loops call other checks
+			if call.Common().StaticCallee() == fn {
 				continue
 			}
 			var loop *Loop
